@@ -365,7 +365,7 @@ Thorough == Depth = "thorough"
 BinStructural(lf, last) ==
   {Mu("trunc_before", ""), Mu("delete", ""), Mu("dup", "")}
   \cup (IF lf.w >= 2 \/ lf.k \in {"blob", "rest"} THEN {Mu("trunc_inside", "")} ELSE {})
-  \cup (IF last THEN {Mu("extend", "1"), Mu("extend", "64")} \cup (IF Thorough THEN {Mu("extend", "4096")} ELSE {}) ELSE {})
+  \cup (IF last THEN {Mu("extend", "1"), Mu("extend", "64")} \cup (IF Thorough THEN {Mu("extend", "256")} ELSE {}) ELSE {})
 FlagBits(lf) ==
   IF Thorough THEN 0..(8 * lf.w - 1)
   ELSE lf.bits \cup {8 * lf.w - 1} \cup {CHOOSE b \in 0..(8 * lf.w - 1) : b \notin lf.bits}
@@ -457,7 +457,18 @@ FullPlan == {<<ch, i, k>> : ch \in ChainNames, i \in UNION {DOMAIN Instances[c] 
 Plan == {t \in (IF Thorough THEN FullPlan ELSE QuickPlan) :
            t[1] \in ChainNames /\ t[2] \in DOMAIN Instances[t[1]] /\ t[3] <= Len(Chains[t[1]])}
 
-Case(ch, i, k, j, lf, mu) == [chain |-> ch, inst |-> i, layer |-> k, lname |-> Chains[ch][k], leaf |-> j, ln |-> lf.n, m |-> mu.m, a |-> mu.a]
+\* size class of the materialised input with respect to the bounds of deser_slatepack / PathToSlatepack
+\* (min_size = 15, max_size = 32 x max_tx_weight + 30).  The model knows it for the mutations that aim at the
+\* bounds; trace validation binds it from the logged length (a duplicated payload may or may not cross the bound).
+ModelSz(ch, k, j, lf, mu) ==
+  IF k = 1 /\ mu.m = "extend" /\ mu.a = "max" THEN "big"
+  ELSE IF k = 1 /\ Chains[ch][1] = "armor" /\ mu.m = "trunc_before" /\ lf.n \in {"hdr", "dot1"} THEN "small"
+  ELSE IF k = 1 /\ mu.m = "empty" THEN "small"
+  ELSE IF k = 1 /\ mu.m = "doc" /\ mu.a = "empty" THEN "small"
+  ELSE IF k = 1 /\ Chains[ch][1] = "packbin" /\ mu.m \in {"trunc_before", "trunc_inside"} /\ j <= 5 THEN "small"
+  ELSE "ok"
+Case(ch, i, k, j, lf, mu) == [chain |-> ch, inst |-> i, layer |-> k, lname |-> Chains[ch][k], leaf |-> j, ln |-> lf.n, m |-> mu.m, a |-> mu.a,
+                              sz |-> ModelSz(ch, k, j, lf, mu)]
 Cases ==
   UNION { LET Ls == LeavesTable[t[1]][t[2]][t[3]] IN
           UNION { {Case(t[1], t[2], t[3], j, Ls[j], mu) : mu \in Muts(Chains[t[1]][t[3]], Ls[j], j = Len(Ls))} : j \in DOMAIN Ls }
@@ -761,15 +772,8 @@ Prog(ch, ep) ==
 \* layer in, result, panic site, the wallet store (decoders never write it)
 Start == [pc |-> 1, phase |-> "main", pend |-> "none", res |-> "run", site |-> "", store |-> "S0", steps |-> 0]
 
-\* size bounds of deser_slatepack / PathToSlatepack: only cases that change the
-\* total length across a bound are rejected here
-SizeEff(c) ==
-  IF c.layer = 1 /\ c.m = "extend" /\ c.a = "max" THEN E("err")
-  ELSE IF c.layer = 1 /\ c.lname = "armor" /\ c.m = "trunc_before" /\ c.ln \in {"hdr", "dot1"} THEN E("err")
-  ELSE IF c.layer = 1 /\ c.m \in {"empty"} THEN E("err")
-  ELSE IF c.layer = 1 /\ c.m = "doc" /\ c.a = "empty" THEN E("err")
-  ELSE IF c.layer = 1 /\ c.lname = "packbin" /\ c.m \in {"trunc_before", "trunc_inside"} /\ c.leaf <= 5 THEN E("err")   \* fewer than 15 bytes
-  ELSE E("cont")
+\* size bounds of deser_slatepack / PathToSlatepack
+SizeEff(c) == IF c.sz = "ok" THEN E("cont") ELSE E("err")
 
 \* mutations that rewrite the whole document (JSON text level) act in stage jsontext
 StageOfCase(c) ==
